@@ -242,6 +242,11 @@ func (x *Exec) finishObls() []*Obl {
 		}
 		o.Defs = defs.String()
 		o.DefNames = x.defOrder
+		for _, n := range x.defOrder {
+			if b := x.defTerms[n]; b != nil {
+				o.DefBodies = append(o.DefBodies, b)
+			}
+		}
 	}
 	return x.Obls
 }
